@@ -294,6 +294,30 @@ func Main(o Options) {
 		replay(o, scs, cfg, rp)
 		return
 	}
+	if fr := argValue("--free-run"); fr != "" {
+		// auxiliary race pass: run every scenario body free-running (no scheduler) n times in
+		// this (-race built) process; the race detector reports on stderr and sets exit code 66
+		n, _ := strconv.Atoi(fr)
+		runs := 0
+		for _, sc := range scs {
+			for i := 0; i < n; i++ {
+				inst := sc.New()
+				done := make(chan struct{})
+				go func() {
+					defer func() { recover(); close(done) }()
+					inst.Body()
+				}()
+				select {
+				case <-done:
+					runs++
+				case <-time.After(5 * time.Second):
+					// free-running bodies that wait for scheduler-only events are skipped
+				}
+			}
+		}
+		fmt.Printf("FREE-RUN scenarios=%d completed_runs=%d\n", len(scs), runs)
+		return
+	}
 	if w := argValue("--scenario"); w != "" {
 		// "--scenario a" or "--scenario a-b" (inclusive range)
 		var a, b int
